@@ -60,6 +60,15 @@ CHECKS.update({
         ref='3/C06'),
 })
 
+CHECKS.update({
+    'C03': dict(
+        technique='model-based property testing (Hypothesis histories of register/update/unregister/query against ResponderModel), replies read from the simulated wire with an independent decoder',
+        text=SIM + 'generated registry histories and queries (known answers aimed at the half-TTL boundary) are answered by the real '
+             'responder; answers, TTLs and additionals on the wire are compared with ResponderModel.',
+        note='trusts ResponderModel, the simulator and vlib/wire.py; stated don\'t-care regions (ANY on hosts, NSEC corner cases) impose nothing',
+        ref='3/C03'),
+})
+
 NOT_YET = {
 }
 
